@@ -212,28 +212,46 @@ def bindings_equal(pat, path, got, exp):
 class Table(object):
     """a Router holding the given (method, pattern) entries in the given registration order"""
 
-    def __init__(self, entries, mode="routes"):
-        self.entries = entries
+    def __init__(self, entries, mode="routes", names=None, upto=None):
+        """names: handler / route names per entry (resource classes defined in one process may reuse handler names in
+        another order); upto: register only entries[:upto] now, the rest with register_rest() - a table that grows
+        after lookups have been answered"""
+        self.all_entries = list(entries)
+        self.names = list(names) if names is not None else ["h%d" % i for i in range(len(entries))]
+        self.mode = mode
         self.calls = []
         self.router = Router()
         self.nreq = 0
-        if mode == "routes":
+        self.entries = []
+        self.routes = []
+        self._register(len(entries) if upto is None else upto)
+
+    def register_rest(self):
+        self._register(len(self.all_entries))
+
+    def _register(self, upto):
+        lo = len(self.entries)
+        chunk = list(enumerate(self.all_entries))[lo:upto]
+        if not chunk:
+            return
+        if self.mode == "routes":
             routes = []
-            for i, (method, pattern) in enumerate(entries):
-                routes.append(Route("r%d" % i, method, pattern, self._callback(i)))
+            for i, (method, pattern) in chunk:
+                routes.append(Route("r" + self.names[i], method, pattern, self._callback(i)))
             self.router.registerRoutes(routes)
         else:
             deco = {"GET": H.get, "DELETE": H.delete, "POST": H.post, "PUT": H.put}
-            handlers = [(("h%d" % i), deco[method](pattern)(self._method(i))) for i, (method, pattern) in enumerate(entries)]
+            handlers = [(self.names[i], deco[method](pattern)(self._method(i))) for i, (method, pattern) in chunk]
 
             def body(ns):
                 for name, fn in handlers:
                     ns[name] = fn
             cls = types.new_class("TableResource", (Resource,), {}, body)
             self.router.registerRoutes(cls())
+        self.entries = self.all_entries[:upto]
         self.routes = list(self.router.routes)
-        if len(self.routes) != len(entries):
-            raise RuntimeError("harness: %d routes registered for %d entries" % (len(self.routes), len(entries)))
+        if len(self.routes) != len(self.entries):
+            raise RuntimeError("harness: %d routes registered for %d entries" % (len(self.routes), len(self.entries)))
 
     def _callback(self, i):
         def cb(request):
@@ -245,7 +263,7 @@ class Table(object):
         def h(self_, request):
             self.calls.append((i, request.matches))
             return JsonResponse({"route": i}, 200)
-        h.__name__ = "h%d" % i
+        h.__name__ = self.names[i]
         return h
 
     def index_of(self, endpt):
@@ -432,15 +450,31 @@ def table_case(ctx, case, count=True):
     pats = [Pat(p) for _, p in entries]
     paths = list(case["paths"]) + SMALL_PATHS
     multi = set()
+    split = case.get("split")
     for perm in itertools.permutations(range(len(entries))):
         ent = [entries[i] for i in perm]
         pp = [pats[i] for i in perm]
-        table = Table(ent, case["mode"])
+        # the handler of an entry keeps its name in every registration order, so resource classes defined one after
+        # the other in this process carry the same handler names in different definition orders
+        names = ["h%d" % i for i in perm]
+        table = Table(ent, case["mode"], names=names)
         for path in paths:
             for method in METHODS:
                 acceptable, verdicts, binds = check_lookup(ctx, table, pp, method, path, case)
                 if count and sum(1 for v in verdicts.values() if v == MATCH) >= 2:
                     multi.add((method, path))
+        if split is not None and 0 <= split < len(ent):
+            # a table that grows: answer every lookup on the first `split` routes (misses included), register the
+            # rest, and the same lookups must now be answered from the whole table
+            grown = Table(ent, case["mode"], names=names, upto=split)
+            for stage in (0, 1):
+                for path in paths:
+                    for method in METHODS:
+                        check_lookup(ctx, grown, pp[:len(grown.entries)], method, path, case, with_dispatch=(stage == 1))
+                if stage == 0:
+                    grown.register_rest()
+            if count:
+                ctx.label("table-grown-after-lookups")
     if count:
         for method, path in multi:
             ctx.nt((tuple(sorted(entries)), method, path))
@@ -548,7 +582,8 @@ def table_strategy(draw):
         else:
             paths.append(draw(derived_path(routes[draw(st.integers(0, n - 1))][1], PATH_ALPHA)))
     mode = draw(st.sampled_from(["routes", "resource"]))
-    return {"part": "table", "mode": mode, "routes": routes, "paths": paths}
+    split = draw(st.integers(0, n))
+    return {"part": "table", "mode": mode, "routes": routes, "paths": paths, "split": split if split < n else None}
 
 
 def run_tables(spec, ctx):
@@ -617,7 +652,7 @@ def plan(tier):
         for i in range(12):
             specs.append({"part": "pairs", "i": i, "n": 12, "maxseg": 5, "nolead": 3})
         for i in range(6):
-            specs.append({"part": "tables", "n": 1200, "i": i})
+            specs.append({"part": "tables", "n": 600, "i": i})
         for i in range(2):
             specs.append({"part": "lits", "n": 6000, "i": i})
     else:
